@@ -50,6 +50,30 @@ def evalFn (name : String) (a : List String) : Option String := do
   | "proofPosition", [t, n, r] => pure (u64s (proofPosition (← parseU64 t) (← parseU64 n) (← parseU8 r)))
   | _, _ => none
 
+/-- (row, offset) of an encoded position in a forest allocated for `rows` rows (geometry only) -/
+def decPos (rows : Nat) (p : Nat) : Option Spec.Pos :=
+  (List.range (rows + 1)).findSome? fun r =>
+    let start := Spec.enc rows (r, 0)
+    if start ≤ p && p < start + 2 ^ (rows - r) then some (r, p - start) else none
+
+/-- C16 oracle for `ProofPositions` (from the property text, geometry only): for sorted,
+duplicate-free targets that are positions of a forest with `n` leaves, the first result is
+exactly the siblings on the targets' paths that are neither targets nor computable, the
+second exactly the computable ancestors.  Returns `none` when the oracle does not apply. -/
+def proofPositionsSpec (ts : List Nat) (n rows : Nat) : Option (List Nat × List Nat × Bool) := do
+  let ps ← ts.mapM (decPos rows)
+  if !(ps.all fun (r, o) => (o + 1) * 2 ^ r ≤ n) then none
+  if !(ts.zip (ts.drop 1)).all (fun (a, b) => a < b) then none
+  let F : Spec.Forest Unit := ⟨List.replicate n none⟩
+  let _ := F
+  let paths := ps.flatMap (Spec.Forest.pathUp n (rows + 1))
+  let P := Spec.Forest.sortDedup paths
+  let proof := Spec.Forest.sortDedup ((P.filter (fun p => !Spec.isRootPos n p)).map Spec.sib |>.filter (fun s => !P.contains s))
+  let comp := Spec.Forest.sortDedup (ps.flatMap (fun t => (Spec.Forest.pathUp n (rows + 1) t).drop 1))
+  -- nested: some target is a strict ancestor of another target
+  let nested := ps.any fun t => ps.any fun t' => t != t' && ((Spec.Forest.pathUp n (rows + 1) t').drop 1).contains t
+  pure (proof.map (Spec.enc rows), comp.map (Spec.enc rows), nested)
+
 def handleFn (line : String) (toks : List String) : M Unit := do
   match toks with
   | name :: rest =>
@@ -59,6 +83,26 @@ def handleFn (line : String) (toks : List String) : M Unit := do
     | some exp =>
       count ("fn:" ++ name) line
       expectEq ("fn:" ++ name) exp res
+      -- property oracle for ProofPositions
+      if name == "ProofPositions" then
+        match args, (rest.dropWhile (· != "=")).drop 1 with
+        | [l, n, r], [gp, gc] =>
+          match parseNats l, n.toNat?, r.toNat?, parseNats gp, parseNats gc with
+          | some ts, some n, some rows, some gp, some gc =>
+            if rows ≤ 63 && n ≤ 2 ^ rows then
+              match proofPositionsSpec ts n rows with
+              | some (ep, ec, nested) =>
+                count "oracle:ProofPositions" line (!ts.isEmpty)
+                let gpS := gp.mergeSort (· ≤ ·)
+                let gcS := gc.mergeSort (· ≤ ·)
+                if gpS != ep.mergeSort (· ≤ ·) || gcS != ec.mergeSort (· ≤ ·) then
+                  if nested then
+                    knownFinding "C16.proofpositions.nested" s!"ProofPositions({l}, {n}, {rows}) = {nats gp} / {nats gc}, canonical {nats ep} / {nats ec}"
+                  else
+                    oracleFail "fn:ProofPositions" s!"ProofPositions({l}, {n}, {rows}) = {nats gp} / {nats gc}, canonical {nats ep} / {nats ec}"
+              | none => pure ()
+          | _, _, _, _, _ => pure ()
+        | _, _ => pure ()
     | none => parseError line
   | [] => parseError line
 
